@@ -43,7 +43,9 @@ def convert_to_bool_expression(qlassf: QlassF, form: str):
     )
 
     if form == "anf":
-        return to_anf(combined_expr)
+        # sympy's to_anf is not reliable below a Not, an ITE or a Xor holding complementary
+        # terms (a ^ ~a): it is given the negation normal form
+        return to_anf(to_nnf(combined_expr, simplify=False))
     elif form == "cnf":
         return to_cnf(combined_expr, simplify=True)
     elif form == "dnf":
